@@ -235,31 +235,40 @@ E2E_MODES = {"regular": ("regular", modes.HttpProxy), "transparent": ("transpare
 class Check(PropertyCheck):
     prop = "C19"
     design_ref = "§5 C19"
-    level_text = ("Lean theorems over the model of NextLayer._ignore_connection/_get_host_header/_get_client_hello/_next_layer, "
-                  "NextLayer buffering+replay and the TCP/UDP relay, for ALL inputs: allow_semantics / ignore_semantics (verdict = the "
-                  "documented rule over the candidate host names, regex search a parameter), host_header_agrees_with_spec (the "
-                  "regex scanner = RFC 9112 field syntax on every well-formed head: first Host field, name case-insensitive, any "
-                  "OWS on both sides, any position, any trailing bytes), host_header_prefix_stable / decision_prefix_stable / "
-                  "decision_seg_independent_partial (the verdict at the first deciding segment = verdict on the whole flight for "
-                  "EVERY segmentation once three bytes are there and the first segment does not end inside the request line) with "
-                  "decision_seg_independent_counterexample for that excluded class (finding F-C19b), ignored_is_passthrough (verdict "
-                  "ignore => the stack is the single relay layer, no TLS/HTTP layer, no hooks unless show_ignored_hosts, and for every "
-                  "well-formed event history sent ++ still-buffered = received in both directions, incl. bytes buffered before the "
-                  "decision and while connecting), not_excluded_is_intercepted, tls_ignore_passthrough (ClientTLSLayer "
-                  "ignore_connection branch, any segmentation). Model tied to the code at unit level (three functions + stack class) "
-                  "and end to end through world.py with the real NextLayer addon in regular-CONNECT, transparent, reverse and SOCKS5 "
-                  "mode (stack class + per-step commands reaching both peers).")
+    level_text = ("Lean theorems (13) over the model of NextLayer._ignore_connection/_get_host_header/_get_client_hello/_next_layer, "
+                  "NextLayer buffering+replay and the TCP/UDP relay, for ALL inputs: verdict_rule / allow_semantics / ignore_semantics "
+                  "(the verdict is exactly the documented rule over the candidate host names; regex search is a parameter), "
+                  "candidates_cover_destinations (server address, peername, Host value, SNI are candidates), "
+                  "host_header_agrees_with_spec (the regex scanner = RFC 9112 field syntax on EVERY well-formed head: first Host "
+                  "field, name case-insensitive, any amount of SP/HTAB on both sides, any position, empty value = no host, any "
+                  "trailing bytes), host_header_prefix_stable / decision_prefix_stable / decision_seg_independent_partial (TCP: the "
+                  "verdict at the first deciding segment = verdict on the whole flight for EVERY segmentation once three bytes "
+                  "are there and the deciding prefix does not end inside the request line) with "
+                  "decision_seg_independent_counterexample for exactly that excluded class (finding F-C19b), ignored_is_passthrough "
+                  "(verdict ignore => the stack is the single relay layer, nothing terminates TLS or parses HTTP, no hook unless "
+                  "show_ignored_hosts; for EVERY event history: while the relay is active the bytes sent to each peer = all bytes "
+                  "received from the other, incl. those buffered before the decision and while connecting; before that nothing is "
+                  "sent and everything is still queued in order), not_excluded_is_intercepted / passthrough_only_if_excluded, "
+                  "tls_ignore_passthrough (ClientTLSLayer ignore_connection branch, any segmentation). Model tied to the code at unit "
+                  "level (three functions + stack class over all modes/schemes/options) and end to end through world.py with the "
+                  "real NextLayer addon in regular-CONNECT, transparent (tcp+udp), reverse and SOCKS5 mode, eager and lazy "
+                  "connection strategy (stack class + per-step opens, bytes to both peers, closes, tcp_*/udp_* hooks).")
     level_note = ("trusted: Lean kernel; hand model tied differentially (validated, not verified). Parameters instantiated in the tie: "
-                  "Python re.search (driver uses literal patterns with optional ^/$ anchors, IGNORECASE, ASCII hosts; non-ASCII text that "
-                  "really decodes is skipped because str case folding/\\d are modelled for ASCII only), check.is_valid_host (real function), "
-                  "QUIC ClientHello extraction (real function; exercised, not modelled). ClientHello parsing is Model/C13 (its theorems are "
-                  "imported). Segmentation theorem is for TCP; F-C19b (first segment ends inside the request line => Host header not "
-                  "consulted) is a recorded finding, statement proved partial + counterexample. The spec side requires CRLF line ends, "
-                  "the request line first (no leading empty line) and a method starting with three letters, as next_layer documents; "
-                  "heads using bare LF never produce a verdict in code and model alike. Hook completion is immediate in the tie "
-                  "(events arriving while the next_layer hook is pending are C04's subject). UDP relay and DTLS/QUIC verdicts are tied "
-                  "at unit level and by transparent-mode UDP runs only. TLS interception after a 'not excluded' verdict is observed "
-                  "up to the stack class.")
+                  "Python re.search (driver uses literal patterns with optional ^/$ anchors, IGNORECASE, ASCII; first flights "
+                  "containing non-ASCII text that really decodes are skipped because str case folding and \\d are modelled for ASCII "
+                  "only), check.is_valid_host (real function), QUIC ClientHello extraction (real function; exercised, not modelled). "
+                  "ClientHello parsing is Model/C13 (its theorem prefix_stable is imported). PARTIAL: decision_seg_independent holds "
+                  "only outside F-C19b (first segment ends inside the request line => Host header not consulted; recorded finding, "
+                  "full statement DecisionSegIndependent kept, partial + counterexample proved); the segmentation theorems are for TCP "
+                  "(UDP datagram boundaries and QUIC are tie-only). Stream equality is proved for histories whose final phase is "
+                  "relay (and in queued form for undecided/connecting); a history ending in `done` satisfied it up to the closing "
+                  "event (same theorem on the prefix), later events are swallowed by TCPLayer.done in code and model alike; a failed "
+                  "connect or a client that closes before any verdict relays nothing. The spec side of the Host header requires CRLF "
+                  "line ends, the request line first (no leading empty line) and a method starting with three letters, as "
+                  "next_layer documents; heads using bare LF never produce a verdict in code and model alike. Hook completion is "
+                  "immediate in the tie (events arriving while the next_layer hook is pending are C04's subject). Inside a CONNECT "
+                  "tunnel close events are not driven (HttpStream turns the relay's half-close into a full close: C29's subject). "
+                  "TLS interception after a 'not excluded' verdict is observed up to the stack class.")
     technique = "Lean 4 proof (induction over bytes/events, invariants) + unit-level and end-to-end differential correspondence (world.py, real NextLayer addon)"
     rule = ("hh: request heads built from (request line x Host spelling: name case, 0/1/many SP/HTAB before and after, position "
             "among other fields, absent, empty, duplicate) incl. every prefix of short heads, single-byte mutants and raw bytes; "
@@ -268,8 +277,8 @@ class Check(PropertyCheck):
             "flights (HTTP heads, TLS/DTLS ClientHellos whole/truncated/invalid, QUIC-looking, raw) ; e2e: mode x "
             "connection_strategy x rules x flight x every single cut of short flights + random multi-cuts x script of later "
             "data/close/connect events. distinct = distinct case; non-trivial = rules set and a destination present.")
-    budget = {"quick": 3600, "thorough": 160000}
-    time_budget = {"quick": 18, "thorough": 540}
+    budget = {"quick": 3600, "thorough": 120000}
+    time_budget = {"quick": 18, "thorough": 420}
     fingerprints = ["mitmproxy.addons.next_layer:NextLayer._ignore_connection", "mitmproxy.addons.next_layer:NextLayer._get_host_header",
                     "mitmproxy.addons.next_layer:NextLayer._get_client_hello", "mitmproxy.addons.next_layer:NextLayer._next_layer",
                     "mitmproxy.addons.next_layer:NextLayer._setup_reverse_proxy", "mitmproxy.addons.next_layer:NextLayer._setup_explicit_http_proxy",
@@ -429,8 +438,8 @@ class Check(PropertyCheck):
         else: segs = rng.split(d, rng.weighted([(3, 1), (3, 2), (2, 3), (1, 5)]))
         script = []
         for _ in range(rng.randint(0, 6)):
-            script.append(rng.weighted([(4, ["c", hx(rng.pick([b"more", b"\x00\xff", b"GET /2 HTTP/1.1\r\n\r\n", b"x" * 40]))]),
-                                        (4, ["s", hx(rng.pick([b"HTTP/1.1 200 OK\r\n\r\n", b"\x16\x03\x03\x00\x01\x00", b"srv"]))]),
+            script.append(rng.weighted([(4, ["c", hx(rng.pick([b"more", b"\x00\xff", b"GET /2 HTTP/1.1\r\n\r\n", b"x" * 40, bytes(range(256)) * rng.pick([5, 70])]))]),
+                                        (4, ["s", hx(rng.pick([b"HTTP/1.1 200 OK\r\n\r\n", b"\x16\x03\x03\x00\x01\x00", b"srv", bytes(range(255, -1, -1)) * rng.pick([6, 65])]))]),
                                         (1, ["xc"]), (1, ["xs"]), (3, ["ok"]), (0.4, ["err"])]))
         if strategy == "lazy" and rng.chance(0.8): script.insert(0, ["ok"])
         return {"kind": "e2e", "mode": mode, "scheme": rng.pick(["http", "tcp", "https", "tls"]) if not udp else "udp", "strategy": strategy,
